@@ -24,7 +24,9 @@
 (* Trace_CharIO evaluates the same operators on logged real executions.     *)
 EXTENDS Integers, Sequences, FiniteSets, TLC
 
-CONSTANTS ShippedCharIds,     \* TRUE: NeXML writer draws a fresh <char> id per CELL when the matrix has no column definitions
+CONSTANTS StickyHyphen,       \* TRUE (regression, never shipped): '-' stays a token delimiter of the NEXUS tokenizer after a CHARSET statement
+          ShippedSetsLink,    \* TRUE: a SETS block without LINK CHARACTERS is only resolvable while exactly one matrix has been read
+          ShippedCharIds,     \* TRUE: NeXML writer draws a fresh <char> id per CELL when the matrix has no column definitions
           ShippedLinkBlocks,  \* TRUE: NEXUS writer's _link_blocks returns suppress_block_titles itself (inverted)
           ShippedTitleCase    \* TRUE: NEXUS writer makes titles unique case-sensitively (reader matches case-insensitively)
 
@@ -284,13 +286,16 @@ NormLabel(f, strict, lab) == IF f = "phylip" /\ strict THEN CTrim(SubSeq(lab, 1,
 NormTaxa(f, strict, taxa) == [i \in DOMAIN taxa |-> NormLabel(f, strict, taxa[i])]
 
 \* construction routes; they differ (for the writers) in whether explicit column definitions exist
-Routes == {"from_dict", "concatenated", "exported", "exported_typed", "parsed_nexus", "parsed_phylip", "parsed_fasta", "parsed_nexml"}
+Routes == {"from_dict", "concatenated", "exported", "exported_typed", "parsed_nexus", "parsed_phylip", "parsed_fasta", "parsed_nexml",
+           "typed_self_concatenated", "typed_self_extended"}      \* parsed from NeXML, then combined with itself: every column twice
 HasColDefs(route) == route \in {"parsed_nexml", "exported_typed"}
+SelfCombined(route) == route \in {"typed_self_concatenated", "typed_self_extended"}
+Doubled(m) == [m EXCEPT !.rows = [i \in DOMAIN m.rows |-> m.rows[i] \o m.rows[i]]]
 RouteOk(route, t) ==
     CASE route = "parsed_nexus"  -> Supports("nexus", t)
       [] route = "parsed_phylip" -> Supports("phylip", t)
       [] route = "parsed_fasta"  -> Supports("fasta", t)
-      [] route \in {"parsed_nexml", "exported_typed"} -> Supports("nexml", t)
+      [] route \in {"parsed_nexml", "exported_typed", "typed_self_concatenated", "typed_self_extended"} -> Supports("nexml", t)
       [] OTHER -> TRUE
 ParsedRoute(f) == "parsed_" \o f
 
@@ -306,7 +311,9 @@ TitleKey(t) == IF ShippedTitleCase THEN t ELSE UpperOf(t)
 RECURSIVE UniqFrom(_, _, _)
 UniqFrom(orig, k, used) == LET cand == orig \o <<".">> \o DigitsOf(k) IN IF TitleKey(cand) \in used THEN UniqFrom(orig, k + 1, used) ELSE cand
 UniqTitle(orig, used) == IF TitleKey(orig) \in used THEN UniqFrom(orig, 1, used) ELSE orig
-\* blocks in the order NexusWriter emits them: all TAXA, then CHARACTERS, then TREES
+\* blocks in the order NexusWriter emits them: all TAXA, then CHARACTERS (each followed by its SETS block when the matrix
+\* carries character subsets), then TREES.   comps[k] = [kind, ns, title, subsets, neg]
+\*   subsets: the matrix carries character subsets;  neg: its cells contain tokens with '-' (negative values, exponents)
 CompOrder(ds) == SelectSeq([k \in DOMAIN ds.comps |-> k], LAMBDA k : ds.comps[k].kind = "CHARACTERS")
                  \o SelectSeq([k \in DOMAIN ds.comps |-> k], LAMBDA k : ds.comps[k].kind = "TREES")
 RECURSIVE NexusTitles(_, _, _, _)
@@ -315,20 +322,23 @@ NexusTitles(raw, i, used, out) ==                    \* raw: Seq(title or <<>>) 
     ELSE LET base == IF raw[i] = <<>> THEN <<"#">> \o DigitsOf(i) ELSE raw[i]
              t == UniqTitle(base, used)
          IN NexusTitles(raw, i + 1, used \cup {TitleKey(t)}, Append(out, t))
+Blk(kind, title, link, labels, neg) == [kind |-> kind, title |-> title, link |-> link, labels |-> labels, neg |-> neg]
 NexusWriteDS(ds, setting) ==
     LET nns == Len(ds.nss)
         order == CompOrder(ds)
         link == LinkBlocks(setting, nns)
         raw == [i \in 1..nns |-> ds.nss[i].title] \o [j \in DOMAIN order |-> ds.comps[order[j]].title]
         titles == IF link THEN NexusTitles(raw, 1, {}, <<>>) ELSE [i \in DOMAIN raw |-> <<>>]
-    IN [i \in 1..nns |-> [kind |-> "TAXA", title |-> titles[i], link |-> <<>>, labels |-> ds.nss[i].labels]]
-       \o [j \in DOMAIN order |-> [kind |-> ds.comps[order[j]].kind, title |-> titles[nns + j],
-                                    link |-> IF link THEN titles[ds.comps[order[j]].ns] ELSE <<>>, labels |-> <<>>]]
+        data(j) == LET cp == ds.comps[order[j]] IN
+                   <<Blk(cp.kind, titles[nns + j], IF link THEN titles[cp.ns] ELSE <<>>, <<>>, cp.neg)>>
+                   \o (IF cp.kind = "CHARACTERS" /\ cp.subsets THEN <<Blk("SETS", <<>>, <<>>, <<>>, FALSE)>> ELSE <<>>)
+    IN [i \in 1..nns |-> Blk("TAXA", titles[i], <<>>, ds.nss[i].labels, FALSE)]
+       \o CFlat([j \in DOMAIN order |-> data(j)])
 NexmlWriteDS(ds) ==
     LET nns == Len(ds.nss)  order == CompOrder(ds) IN
-    [i \in 1..nns |-> [kind |-> "TAXA", title |-> <<"d">> \o DigitsOf(i), link |-> <<>>, labels |-> ds.nss[i].labels]]
-    \o [j \in DOMAIN order |-> [kind |-> ds.comps[order[j]].kind, title |-> <<"d">> \o DigitsOf(nns + j),
-                                 link |-> <<"d">> \o DigitsOf(ds.comps[order[j]].ns), labels |-> <<>>]]
+    [i \in 1..nns |-> Blk("TAXA", <<"d">> \o DigitsOf(i), <<>>, ds.nss[i].labels, FALSE)]
+    \o [j \in DOMAIN order |-> Blk(ds.comps[order[j]].kind, <<"d">> \o DigitsOf(nns + j),
+                                     <<"d">> \o DigitsOf(ds.comps[order[j]].ns), <<>>, ds.comps[order[j]].neg)]
 \* reader side: which TAXA block does each data block bind to (0: the reader must give up)
 TaxaIdx(blocks) == SelectSeq([i \in DOMAIN blocks |-> i], LAMBDA i : blocks[i].kind = "TAXA")
 ResolveNexus(blocks, i) ==                           \* NexusReader._get_taxon_namespace: namespaces seen before block i
@@ -339,12 +349,20 @@ ResolveNexus(blocks, i) ==                           \* NexusReader._get_taxon_n
             IN IF Len(hit) = 1 THEN hit[1] ELSE 0
 ResolveNexml(blocks, i) ==
     LET hit == SelectSeq(TaxaIdx(blocks), LAMBDA k : blocks[k].title = blocks[i].link) IN IF Len(hit) = 1 THEN hit[1] ELSE 0
-DataIdx(blocks) == SelectSeq([i \in DOMAIN blocks |-> i], LAMBDA i : blocks[i].kind # "TAXA")
+DataIdx(blocks) == SelectSeq([i \in DOMAIN blocks |-> i], LAMBDA i : blocks[i].kind \notin {"TAXA", "SETS"})
+CharsBefore(blocks, i) == Len(SelectSeq([k \in DOMAIN blocks |-> k], LAMBDA k : k < i /\ blocks[k].kind = "CHARACTERS"))
+\* a SETS block (CHARSET statements) belongs to the matrix it follows; the shipped reader only resolves an unlinked one
+\* while exactly one matrix has been read
+SetsOk(blocks, i) == blocks[i].link # <<>> \/ ~ShippedSetsLink \/ CharsBefore(blocks, i) = 1
+SetsFail(blocks) == \E i \in DOMAIN blocks : blocks[i].kind = "SETS" /\ ~SetsOk(blocks, i)
+\* hidden tokenizer state across blocks: position lists switch '-' on as a delimiter and must switch it off again
+HyphenOnAt(blocks, i) == StickyHyphen /\ \E k \in DOMAIN blocks : k < i /\ blocks[k].kind = "SETS"
 \* for every data block in order: [kind, ok, labels of the namespace it is attached to]
 ReadDS(f, blocks) ==
     LET d == DataIdx(blocks) IN
-    [j \in DOMAIN d |-> LET k == IF f = "nexus" THEN ResolveNexus(blocks, d[j]) ELSE ResolveNexml(blocks, d[j]) IN
-                         [kind |-> blocks[d[j]].kind, ok |-> k # 0, labels |-> IF k = 0 THEN <<>> ELSE blocks[k].labels]]
+    [j \in DOMAIN d |-> LET k == IF f = "nexus" THEN ResolveNexus(blocks, d[j]) ELSE ResolveNexml(blocks, d[j])
+                             ok == k # 0 /\ (f = "nexus" => ~SetsFail(blocks) /\ ~(blocks[d[j]].neg /\ HyphenOnAt(blocks, d[j])))
+                         IN [kind |-> blocks[d[j]].kind, ok |-> ok, labels |-> IF ok THEN blocks[k].labels ELSE <<>>]]
 ExpectDS(ds) ==
     LET order == CompOrder(ds) IN
     [j \in DOMAIN order |-> [kind |-> ds.comps[order[j]].kind, ok |-> TRUE, labels |-> ds.nss[ds.comps[order[j]].ns].labels]]
